@@ -100,6 +100,9 @@ type Config struct {
 	IdleCap    time.Duration // virtual time after which an all-blocked system is declared stuck
 	StallProb  int           // 1/StallProb: at an idle->timer transition hold a runnable task (0 = off)
 	TraceLimit int
+	// OldTimers: time.Timer values created by instrumented code have the Go < 1.23
+	// channel semantics that mosdns' go.mod (go 1.22.0) selects in a real build.
+	OldTimers bool
 }
 
 // Step is one scheduling decision.
